@@ -5,6 +5,81 @@ namespace OsmoVerif.Lockup
 theorem singleCoin_mk {l : Lock} {dn : Denom} {a : Int} (hc : l.coins = [(dn, a)]) (ha : 0 < a) (hdn : dn ≠ "") :
     SingleCoin l := ⟨dn, a, hc, ha, hdn⟩
 
+/-- `CreateLockNoSend` on a state whose module account has just received the coins (`modBal`), the account balances
+being `B`: sent by the owner (`CreateLock`) or minted (`clLock`). -/
+theorem createLockNoSend_ok {t : Int} {force : Bool} {s s' : State} {B : List ((Addr × Denom) × Int)} {owner : Addr}
+    {dn : Denom} {a duration : Int} {id : Nat}
+    (h : Inv s) (hd : 0 < duration) (ha : 0 < a) (hdn : dn ≠ "")
+    (hB : ∀ o dn', isCLDenom dn' = false →
+      aget B (o, dn') = aget s.bal (o, dn') - (if owner = o ∧ dn = dn' then a else 0))
+    (hBcl : ∀ o dn', isCLDenom dn' = true → aget B (o, dn') ≤ aget s.bal (o, dn'))
+    (hs : createLockNoSend { s with bal := B, modBal := aadd s.modBal dn a } owner [(dn, a)] duration = some (s', id)) :
+    Inv s' ∧ Eff t force s s' ∧ id = s.lastLockId + 1 ∧
+      getLock s' id = some ⟨s.lastLockId + 1, owner, duration, none, [(dn, a)], ""⟩ := by
+  unfold createLockNoSend at hs
+  simp only [Option.bind_eq_bind, lockInternal, accIncreaseCoins, List.foldl_cons, List.foldl_nil, addLockRefs,
+    accIncrease, setLock] at hs
+  generalize hnl : Lock.mk (s.lastLockId + 1) owner duration none [(dn, a)] "" = nl at hs ⊢
+  have hnid : nl.id = s.lastLockId + 1 := by rw [← hnl]
+  cases h2 : addRefsL s.refs (indexKeys nl) (s.lastLockId + 1) with
+  | none => rw [h2] at hs; cases hs
+  | some r =>
+    rw [h2] at hs
+    simp only [Option.map_some, Option.bind_some, Option.some.injEq, Prod.mk.injEq] at hs
+    obtain ⟨rfl, rfl⟩ := hs
+    have hfresh : ∀ x ∈ s.locks, x.id ≠ nl.id := by
+      intro x hx; have := h.idle x hx; omega
+    have hget : getLockL s.locks nl.id = none := by
+      cases hg : getLockL s.locks nl.id with
+      | none => rfl
+      | some x => have := getLockL_some hg; exact absurd this.2 (hfresh x this.1)
+    have hp := put_setLockL nl h.nodup
+    rw [hget] at hp
+    have hcoins : nl.coins = [(dn, a)] := by rw [← hnl]
+    have hown : nl.owner = owner := by rw [← hnl]
+    have hdur : nl.duration = duration := by rw [← hnl]
+    have hend : nl.endTime = none := by rw [← hnl]
+    have heff : Eff t force s
+        { bal := B, modBal := aadd s.modBal dn a, locks := setLockL s.locks nl,
+          lastLockId := s.lastLockId + 1, refs := r, accum := aadd s.accum (dn, duration) a, forceAllowed := s.forceAllowed } := by
+      refine ⟨fun f => f nl, ⟨?_, ?_, ?_, ?_, ?_, ?_, ?_, ?_, frzD_put_fresh h.idle h.nodup hp (by rw [hnid]; omega) (Or.inl hend)⟩⟩
+      · intro f; have := hp.sum f; simp only at this ⊢; omega
+      · intro dn'; simp only [aget_aadd, amt_single dn dn' a nl hcoins]
+      · intro dn' _ d; simp only [accSumGE_aadd, fDur, amt_single dn dn' a nl hcoins, hdur]
+        split <;> split <;> simp_all
+      · intro o dn' hcl; simp only [hB o dn' hcl, fOwner, amt_single dn dn' a nl hcoins, hown]
+        split <;> split <;> simp_all
+      · intro o dn' hcl; exact hBcl o dn' hcl
+      · intro _ o dn'; simp only [fUnm, amt_single dn dn' a nl hcoins]
+        split
+        · split <;> omega
+        · omega
+      · simp only; omega
+      · rfl
+    refine ⟨invG_of_eff h heff hp.nodup ?_ ?_ ?_ ?_ ?_, heff, rfl, ?_⟩
+    · intro l hl
+      rcases (hp.mem l).mp hl with e | ⟨e, _⟩
+      · subst e; simp only; omega
+      · have := h.idle l e; simp only; omega
+    · intro l hl
+      rcases (hp.mem l).mp hl with e | ⟨e, _⟩
+      · subst e; exact singleCoin_mk hcoins ha hdn
+      · exact h.single l e
+    · intro l hl
+      rcases (hp.mem l).mp hl with e | ⟨e, _⟩
+      · subst e; omega
+      · exact h.durpos l e
+    · have h2' : addRefsL (delRefsL s.refs [] nl.id) (indexKeys nl) nl.id = some r := by
+        rw [delRefsL_nil, hnid]; exact h2
+      exact nodup_put_reindex h.refsNodup h2'
+    · have h2' : addRefsL (delRefsL s.refs [] nl.id) (indexKeys nl) nl.id = some r := by
+        rw [delRefsL_nil, hnid]; exact h2
+      exact refsOK_put_reindex h.refsOK hp (Or.inl rfl)
+        (fun k hk => absurd hk (refsOK_none_of_fresh h.refsOK hfresh k)) h2'
+    · have := getLockL_of_mem hp.nodup ((hp.mem nl).mpr (Or.inl rfl))
+      rw [hnid] at this
+      exact this
+
 theorem createLock_ok {t : Int} {force : Bool} {s s' : State} {owner : Addr} {dn : Denom} {a duration : Int} {id : Nat}
     (h : Inv s) (hd : 0 < duration) (hs : createLock s owner [(dn, a)] duration = some (s', id)) :
     Inv s' ∧ Eff t force s s' := by
@@ -15,65 +90,11 @@ theorem createLock_ok {t : Int} {force : Bool} {s s' : State} {owner : Addr} {dn
   | some s1 =>
     rw [h1] at hs
     obtain ⟨hdn, ha, rfl⟩ := sendCoinToModule_some h1
-    simp only [Option.bind_some, lockInternal, accIncreaseCoins, List.foldl_cons, List.foldl_nil, addLockRefs,
-      accIncrease, setLock] at hs
-    generalize hnl : Lock.mk (s.lastLockId + 1) owner duration none [(dn, a)] "" = nl at hs
-    have hnid : nl.id = s.lastLockId + 1 := by rw [← hnl]
-    cases h2 : addRefsL s.refs (indexKeys nl) (s.lastLockId + 1) with
-    | none => rw [h2] at hs; cases hs
-    | some r =>
-      rw [h2] at hs
-      simp only [Option.map_some, Option.bind_some, Option.some.injEq, Prod.mk.injEq] at hs
-      obtain ⟨rfl, _⟩ := hs
-      have hfresh : ∀ x ∈ s.locks, x.id ≠ nl.id := by
-        intro x hx; have := h.idle x hx; omega
-      have hget : getLockL s.locks nl.id = none := by
-        cases hg : getLockL s.locks nl.id with
-        | none => rfl
-        | some x => have := getLockL_some hg; exact absurd this.2 (hfresh x this.1)
-      have hp := put_setLockL nl h.nodup
-      rw [hget] at hp
-      have hcoins : nl.coins = [(dn, a)] := by rw [← hnl]
-      have hown : nl.owner = owner := by rw [← hnl]
-      have hdur : nl.duration = duration := by rw [← hnl]
-      have hend : nl.endTime = none := by rw [← hnl]
-      have heff : Eff t force s
-          { bal := aadd s.bal (owner, dn) (-a), modBal := aadd s.modBal dn a, locks := setLockL s.locks nl,
-            lastLockId := s.lastLockId + 1, refs := r, accum := aadd s.accum (dn, duration) a, forceAllowed := s.forceAllowed } := by
-        refine ⟨fun f => f nl, ⟨?_, ?_, ?_, ?_, ?_, ?_, ?_, frzD_put_fresh h.idle h.nodup hp (by rw [hnid]; omega) (Or.inl hend)⟩⟩
-        · intro f; have := hp.sum f; simp only at this ⊢; omega
-        · intro dn'; simp only [aget_aadd, amt_single dn dn' a nl hcoins]
-        · intro dn' _ d; simp only [accSumGE_aadd, fDur, amt_single dn dn' a nl hcoins, hdur]
-          split <;> split <;> simp_all
-        · intro o dn'; simp only [aget_aadd, fOwner, amt_single dn dn' a nl hcoins, hown, Prod.mk.injEq]
-          split <;> split <;> simp_all <;> omega
-        · intro _ o dn'; simp only [fUnm, amt_single dn dn' a nl hcoins]
-          split
-          · split <;> omega
-          · omega
-        · simp only; omega
-        · rfl
-      refine ⟨invG_of_eff h heff hp.nodup ?_ ?_ ?_ ?_ ?_, heff⟩
-      · intro l hl
-        rcases (hp.mem l).mp hl with e | ⟨e, _⟩
-        · subst e; simp only; omega
-        · have := h.idle l e; simp only; omega
-      · intro l hl
-        rcases (hp.mem l).mp hl with e | ⟨e, _⟩
-        · subst e; exact singleCoin_mk hcoins ha hdn
-        · exact h.single l e
-      · intro l hl
-        rcases (hp.mem l).mp hl with e | ⟨e, _⟩
-        · subst e; omega
-        · exact h.durpos l e
-      · have h2' : addRefsL (delRefsL s.refs [] nl.id) (indexKeys nl) nl.id = some r := by
-          rw [delRefsL_nil, hnid]; exact h2
-        exact nodup_put_reindex h.refsNodup h2'
-      · have h2' : addRefsL (delRefsL s.refs [] nl.id) (indexKeys nl) nl.id = some r := by
-          rw [delRefsL_nil, hnid]; exact h2
-        exact refsOK_put_reindex h.refsOK hp (Or.inl rfl)
-          (fun k hk => absurd hk (refsOK_none_of_fresh h.refsOK hfresh k)) h2'
-
+    simp only [Option.bind_some] at hs
+    obtain ⟨i, e, _⟩ := createLockNoSend_ok (t := t) (force := force) h hd ha hdn
+      (by intro o dn' _; simp only [aget_aadd, Prod.mk.injEq]; split <;> omega)
+      (by intro o dn' _; simp only [aget_aadd]; split <;> omega) hs
+    exact ⟨i, e⟩
 
 /-- structural part of the invariant after a put. -/
 theorem put_struct {o : Option Nat} {s : State} {L' : List Lock} {old : Option Lock} {new : Lock} {last' : Nat}
@@ -128,7 +149,7 @@ theorem addTokens_ok {t : Int} {force : Bool} {s s' : State} {owner : Addr} {dn 
           { bal := aadd s.bal (owner, dn) (-a), modBal := aadd s.modBal dn a, locks := setLockL s.locks nl,
             lastLockId := s.lastLockId, refs := s.refs, accum := aadd (aadd s.accum (dn, l.duration) a) ("", 0) a,
             forceAllowed := s.forceAllowed } := by
-        refine ⟨fun f => f nl - f l, ⟨?_, ?_, ?_, ?_, ?_, ?_, ?_, frzD_put_same h.idle h.nodup hp hl hnid hown'
+        refine ⟨fun f => f nl - f l, ⟨?_, ?_, ?_, ?_, ?_, ?_, ?_, ?_, frzD_put_same h.idle h.nodup hp hl hnid hown'
           (fun e he => ⟨by rw [hend]; exact he, hdur⟩) (fun he => Or.inl (by rw [hend]; exact he))⟩⟩
         · intro f; have := hp.sum f; simp only at this ⊢; omega
         · intro dn'; simp only [aget_aadd, amt_single dn dn' _ nl hcoins, amt_single dn dn' _ l hc]
@@ -138,9 +159,10 @@ theorem addTokens_ok {t : Int} {force : Bool} {s s' : State} {owner : Addr} {dn 
           have : ¬ ("" = dn' ∧ d ≤ 0) := fun e => hdn' e.1.symm
           rw [if_neg this]
           split <;> split <;> simp_all <;> omega
-        · intro o dn'
+        · intro o dn' _
           simp only [aget_aadd, fOwner, amt_single dn dn' _ nl hcoins, amt_single dn dn' _ l hc, hown', Prod.mk.injEq, ← hown]
           split <;> split <;> simp_all <;> omega
+        · intro o dn' _; simp only [aget_aadd]; split <;> omega
         · intro _ o dn'
           simp only [fUnm, matured, amt_single dn dn' _ nl hcoins, amt_single dn dn' _ l hc, hown', hend]
           repeat' split
@@ -228,7 +250,7 @@ theorem splitLock_ok {t : Int} {force fsplit : Bool} {s s1 : State} {dn : Denom}
             (by rcases hcond with hc0 | hc0
                 · exact Or.inl (by rw [f3]; exact hc0)
                 · exact Or.inr (Or.inr hc0)))
-      refine ⟨fun f => f lr - f l + f nl, ⟨?_, ?_, ?_, ?_, ?_, ?_, ?_, hfz⟩⟩
+      refine ⟨fun f => f lr - f l + f nl, ⟨?_, ?_, ?_, ?_, ?_, ?_, ?_, ?_, hfz⟩⟩
       · intro f; have a := hp1.sum f; have b := hp2.sum f; simp only at a b ⊢; omega
       · intro dn'; simp only [amt_single dn dn' _ lr hlrc, amt_single dn dn' _ nl hnlc, amt_single dn dn' _ l hc]
         split <;> omega
@@ -236,10 +258,11 @@ theorem splitLock_ok {t : Int} {force fsplit : Bool} {s s1 : State} {dn : Denom}
         simp only [fDur, amt_single dn dn' _ lr hlrc, amt_single dn dn' _ nl hnlc, amt_single dn dn' _ l hc, e2, f2]
         repeat' split
         all_goals omega
-      · intro o dn'
+      · intro o dn' _
         simp only [fOwner, amt_single dn dn' _ lr hlrc, amt_single dn dn' _ nl hnlc, amt_single dn dn' _ l hc, e1, f1]
         repeat' split
         all_goals omega
+      · intro o dn' _; exact Int.le_refl _
       · intro _ o dn'
         simp only [fUnm, matured, amt_single dn dn' _ lr hlrc, amt_single dn dn' _ nl hnlc, amt_single dn dn' _ l hc, e1, f1, e3, f3]
         repeat' split
@@ -296,12 +319,13 @@ theorem beginUnlockCore_ok {t : Int} {force : Bool} {o : Option Nat} {s s' : Sta
     have heff : Eff t force s
         { bal := s.bal, modBal := s.modBal, locks := setLockL s.locks l2, lastLockId := s.lastLockId, refs := r,
           accum := s.accum, forceAllowed := s.forceAllowed } := by
-      refine ⟨fun f => f l2 - f l1, ⟨?_, ?_, ?_, ?_, ?_, ?_, ?_, frzD_put_same h.idle h.nodup hp hl g1 g2
+      refine ⟨fun f => f l2 - f l1, ⟨?_, ?_, ?_, ?_, ?_, ?_, ?_, ?_, frzD_put_same h.idle h.nodup hp hl g1 g2
         (fun e he => by rw [hend] at he; cases he) (fun _ => Or.inr ⟨by rw [g4, g3], by rw [g3]; exact hdp⟩)⟩⟩
       · intro f; have a := hp.sum f; simp only at a ⊢; omega
       · intro dn'; simp only [amt_single dn dn' _ l2 hc2, amt_single dn dn' _ l1 hc]; omega
       · intro dn' _ d; simp only [fDur, amt_single dn dn' _ l2 hc2, amt_single dn dn' _ l1 hc, g3]; omega
-      · intro o dn'; simp only [fOwner, amt_single dn dn' _ l2 hc2, amt_single dn dn' _ l1 hc, g2]; omega
+      · intro o dn' _; simp only [fOwner, amt_single dn dn' _ l2 hc2, amt_single dn dn' _ l1 hc, g2]; omega
+      · intro o dn' _; exact Int.le_refl _
       · intro _ o dn'
         have hm : (decide (t + l1.duration ≤ t)) = false := by simp; omega
         simp only [fUnm, matured, amt_single dn dn' _ l2 hc2, amt_single dn dn' _ l1 hc, g2, g4, hend, hm]; omega
@@ -325,32 +349,31 @@ theorem unlockInternal_ok {t : Int} {force : Bool} {o : Option Nat} {s s' : Stat
     (hm : force = false → matured t l = true) (hs : unlockInternal s l = some s') :
     Inv s' ∧ Eff t force s s' ∧ (∀ x, x ∈ s'.locks ↔ (x ∈ s.locks ∧ x.id ≠ l.id)) := by
   obtain ⟨dn, a0, hc, ha0, hdn⟩ := h.single l hl
-  unfold unlockInternal at hs
-  simp only [hc, List.isEmpty_cons, Bool.false_eq_true, if_false, sendFromModule, List.foldlM_cons, List.foldlM_nil,
-    Option.bind_eq_bind, Option.pure_def] at hs
-  cases h1 : sendCoinFromModule s l.owner dn a0 with
-  | none => rw [h1] at hs; cases hs
-  | some s1 =>
-    rw [h1] at hs
-    have := sendCoinFromModule_some h1
-    subst this
-    simp only [Option.bind_some, deleteLock, deleteLockRefs, accDecreaseCoins, accIncrease, List.foldl_cons, List.foldl_nil,
-      Option.some.injEq] at hs
-    subst hs
-    have hd := del_deleteLockL h.nodup hl
+  have hd := del_deleteLockL h.nodup hl
+  -- the two ways the coin leaves the module account: paid out to the owner, or (CL shares) burned
+  have key : ∀ B : List ((Addr × Denom) × Int),
+      (∀ o dn', isCLDenom dn' = false → aget B (o, dn') = aget s.bal (o, dn') + (if l.owner = o ∧ dn = dn' then a0 else 0)) →
+      (∀ o dn', isCLDenom dn' = true → aget B (o, dn') ≤ aget s.bal (o, dn')) →
+      s' = { bal := B, modBal := aadd s.modBal dn (-a0), locks := deleteLockL s.locks l.id,
+             lastLockId := s.lastLockId, refs := delRefsL s.refs (List.map (RefKey.mk true) (lockRefKeys l)) l.id,
+             accum := aadd s.accum (dn, l.duration) (-a0), forceAllowed := s.forceAllowed } →
+      Inv s' ∧ Eff t force s s' ∧ (∀ x, x ∈ s'.locks ↔ (x ∈ s.locks ∧ x.id ≠ l.id)) := by
+    intro B hB hBcl hs'
+    subst hs'
     have heff : Eff t force s
-        { bal := aadd s.bal (l.owner, dn) a0, modBal := aadd s.modBal dn (-a0), locks := deleteLockL s.locks l.id,
+        { bal := B, modBal := aadd s.modBal dn (-a0), locks := deleteLockL s.locks l.id,
           lastLockId := s.lastLockId, refs := delRefsL s.refs (List.map (RefKey.mk true) (lockRefKeys l)) l.id,
           accum := aadd s.accum (dn, l.duration) (-a0), forceAllowed := s.forceAllowed } := by
-      refine ⟨fun f => - f l, ⟨?_, ?_, ?_, ?_, ?_, ?_, ?_, frzD_del h.idle h.nodup hd hl hm⟩⟩
+      refine ⟨fun f => - f l, ⟨?_, ?_, ?_, ?_, ?_, ?_, ?_, ?_, frzD_del h.idle h.nodup hd hl hm⟩⟩
       · intro f; have a := hd.sum f; simp only at a ⊢; omega
       · intro dn'; simp only [aget_aadd, amt_single dn dn' _ l hc]; split <;> omega
       · intro dn' _ d; simp only [accSumGE_aadd, fDur, amt_single dn dn' _ l hc]
         repeat' split
         all_goals simp_all
-      · intro o dn'; simp only [aget_aadd, fOwner, amt_single dn dn' _ l hc, Prod.mk.injEq]
+      · intro o dn' hcl; simp only [hB o dn' hcl, fOwner, amt_single dn dn' _ l hc]
         repeat' split
         all_goals simp_all
+      · intro o dn' hcl; exact hBcl o dn' hcl
       · intro hf o dn'
         simp only [fUnm, hm hf]
         simp
@@ -364,6 +387,42 @@ theorem unlockInternal_ok {t : Int} {force : Bool} {o : Option Nat} {s s' : Stat
       intro k hk
       have := refsOK_covered h.refsOK h.nodup hl hk
       rw [hunl] at this; exact this
+  unfold unlockInternal at hs
+  by_cases hcl : isCLDenom dn = true
+  · -- CL shares: burned
+    simp only [hc, burnCLShares, List.foldlM_cons, List.foldlM_nil, hcl, if_true, Option.bind_eq_bind, Option.pure_def,
+      List.filter_cons, Bool.not_true, Bool.false_eq_true, if_false, List.filter_nil, List.isEmpty_nil] at hs
+    cases h1 : burnCoinFromModule s dn a0 with
+    | none => rw [h1] at hs; cases hs
+    | some s1 =>
+      rw [h1] at hs
+      have := burnCoinFromModule_some h1
+      subst this
+      simp only [Option.bind_some, deleteLock, deleteLockRefs, accDecreaseCoins, accIncrease, List.foldl_cons, List.foldl_nil,
+        Option.some.injEq] at hs
+      refine key s.bal ?_ (fun o dn' _ => Int.le_refl _) hs.symm
+      intro o dn' hcl'
+      have : dn ≠ dn' := by intro e; rw [e] at hcl; rw [hcl] at hcl'; cases hcl'
+      rw [if_neg (fun e => this e.2)]; omega
+  · -- anything else: paid out to the owner
+    have hcl : isCLDenom dn = false := by simpa using hcl
+    simp only [hc, burnCLShares, List.foldlM_cons, List.foldlM_nil, hcl, Bool.false_eq_true, if_false, Option.bind_eq_bind,
+      Option.pure_def, Option.bind_some, List.filter_cons, Bool.not_false, if_true, List.filter_nil, List.isEmpty_cons,
+      sendFromModule] at hs
+    cases h1 : sendCoinFromModule s l.owner dn a0 with
+    | none => rw [h1] at hs; cases hs
+    | some s1 =>
+      rw [h1] at hs
+      have := sendCoinFromModule_some h1
+      subst this
+      simp only [Option.bind_some, deleteLock, deleteLockRefs, accDecreaseCoins, accIncrease, List.foldl_cons, List.foldl_nil,
+        Option.some.injEq] at hs
+      refine key (aadd s.bal (l.owner, dn) a0) ?_ ?_ hs.symm
+      · intro o dn' _; simp only [aget_aadd, Prod.mk.injEq]
+      · intro o dn' hcl'
+        have : dn ≠ dn' := by intro e; rw [e] at hcl; rw [hcl] at hcl'; cases hcl'
+        simp only [aget_aadd, Prod.mk.injEq]
+        rw [if_neg (fun e => this e.2)]; omega
 
 theorem extend_ok {t : Int} {force : Bool} {s s' : State} {owner : Addr} {id : Nat} {nd : Int}
     (h : Inv s) (hnd : 0 < nd) (hs : extendLockup s id owner nd = some s') : Inv s' ∧ Eff t force s s' := by
@@ -405,7 +464,7 @@ theorem extend_ok {t : Int} {force : Bool} {s s' : State} {owner : Addr} {id : N
               have hend0 : l.endTime = none := by
                 simp only [Lock.isUnlocking, Bool.not_eq_true, Option.isSome_eq_false_iff, Option.isNone_iff_eq_none] at hunl
                 exact hunl
-              refine ⟨fun f => f l2 - f l, ⟨?_, ?_, ?_, ?_, ?_, ?_, ?_, frzD_put_same h.idle h.nodup hp hl g1 g2
+              refine ⟨fun f => f l2 - f l, ⟨?_, ?_, ?_, ?_, ?_, ?_, ?_, ?_, frzD_put_same h.idle h.nodup hp hl g1 g2
                 (fun e he => by rw [hend0] at he; cases he) (fun he => Or.inl (by rw [g4]; exact he))⟩⟩
               · intro f; have a := hp.sum f; simp only at a ⊢; omega
               · intro dn'; simp only [amt_single dn dn' _ l2 g5, amt_single dn dn' _ l hc]; omega
@@ -414,7 +473,8 @@ theorem extend_ok {t : Int} {force : Bool} {s s' : State} {owner : Addr} {id : N
                 repeat' split
                 all_goals simp_all
                 all_goals omega
-              · intro o dn'; simp only [fOwner, amt_single dn dn' _ l2 g5, amt_single dn dn' _ l hc, g2]; omega
+              · intro o dn' _; simp only [fOwner, amt_single dn dn' _ l2 g5, amt_single dn dn' _ l hc, g2]; omega
+              · intro o dn' _; exact Int.le_refl _
               · intro _ o dn'
                 simp only [fUnm, matured, amt_single dn dn' _ l2 g5, amt_single dn dn' _ l hc, g2, g4]; omega
               · exact Nat.le_refl _
@@ -457,12 +517,13 @@ theorem setRewardReceiver_ok {t : Int} {force : Bool} {s s' : State} {owner recv
         have heff : Eff t force s
             { bal := s.bal, modBal := s.modBal, locks := setLockL s.locks l2, lastLockId := s.lastLockId, refs := s.refs,
               accum := s.accum, forceAllowed := s.forceAllowed } := by
-          refine ⟨fun f => f l2 - f l, ⟨?_, ?_, ?_, ?_, ?_, ?_, ?_, frzD_put_same h.idle h.nodup hp hl g1 g2
+          refine ⟨fun f => f l2 - f l, ⟨?_, ?_, ?_, ?_, ?_, ?_, ?_, ?_, frzD_put_same h.idle h.nodup hp hl g1 g2
             (fun e he => ⟨by rw [g4]; exact he, g3⟩) (fun he => Or.inl (by rw [g4]; exact he))⟩⟩
           · intro f; have a := hp.sum f; simp only at a ⊢; omega
           · intro dn'; simp only [amt_single dn dn' _ l2 g5, amt_single dn dn' _ l hc]; omega
           · intro dn' _ d; simp only [fDur, amt_single dn dn' _ l2 g5, amt_single dn dn' _ l hc, g3]; omega
-          · intro o dn'; simp only [fOwner, amt_single dn dn' _ l2 g5, amt_single dn dn' _ l hc, g2]; omega
+          · intro o dn' _; simp only [fOwner, amt_single dn dn' _ l2 g5, amt_single dn dn' _ l hc, g2]; omega
+          · intro o dn' _; exact Int.le_refl _
           · intro _ o dn'
             simp only [fUnm, matured, amt_single dn dn' _ l2 g5, amt_single dn dn' _ l hc, g2, g4]; omega
           · exact Nat.le_refl _
